@@ -15,10 +15,16 @@ import (
 const gasInit = 5200000000000000
 
 func main() {
+	if len(os.Args) > 2 && os.Args[1] == "probe-restart" {
+		var at uint32
+		fmt.Sscan(os.Args[2], &at)
+		probeRestart(at)
+		return
+	}
 	f := hx.ParseFlags()
 	o := hx.NewOut(f.Out)
 	defer o.Close()
-	n := f.N(20, 400)
+	n := f.N(60, 3000)
 	for k := 0; k < n; k++ {
 		if !f.Want(k) {
 			continue
@@ -45,7 +51,14 @@ func runCase(o *hx.Out, f *hx.Flags, k int) {
 	C := 1 + r.Weighted([]int{2, 3, 4, 3, 2})
 	V := 1 + r.Intn(min(C, 3))
 	nUsers := r.Range(3, 6)
-	w := newWorld(t, r, C, V, nUsers, r.Range(0, 2))
+	nExtra := r.Range(0, 2)
+	switch k {
+	case 0:
+		C, V, nUsers, nExtra = 2, 1, 4, 1
+	case 1:
+		C, V, nUsers, nExtra = 1, 1, 3, 1
+	}
+	w := newWorld(t, r, C, V, nUsers, nExtra)
 	o.Case(k)
 	attrFee := w.bc.GetNotaryServiceFeePerKey()
 	o.Line(fmt.Sprintf("init %d %d %d %d %d %d %d %d", w.aid(w.notaryH), w.aid(w.neoH), C, V, attrFee, w.aid(w.treasuryH), w.aid(w.valSigner.ScriptHash()), gasInit), "ok")
@@ -63,6 +76,16 @@ func runCase(o *hx.Out, f *hx.Flags, k int) {
 	nb := r.Range(30, 50)
 	if f.Tier == "thorough" {
 		nb = r.Range(40, 120)
+	}
+	switch k {
+	case 0:
+		corpus0(w, o, k)
+		nb = 10
+		o.Count("case:corpus")
+	case 1:
+		corpus1(w, o, k)
+		nb = 10
+		o.Count("case:corpus")
 	}
 	for i := 0; i < nb; i++ {
 		w.randomBlock(o, k)
